@@ -101,6 +101,11 @@ def check_vector(v):
     # intervals derived from stranded entries stay stranded: values under the clipped entries and under windows around stranded locations
     vals = lambda rows: [[int(x) for x in np.asarray(r.to_array() if hasattr(r, "to_array") else r).tolist()] for r in rows]
     cmp("track[stranded intervals.clip()]", v["underclip"], lambda: vals(track[g.get_intervals(table(stick), stranded=True).clip()]))
+    # strandedness survives joining interval sets and taking the strand-aware start locations
+    if len(es) >= 2:
+        cmp("track[concatenate(stranded intervals)]", v["understr"], lambda: vals(track[np.concatenate([gi[:1], gi[1:]])]))
+    for f in (0, 1):
+        cmp("track[stranded intervals.get_location('start').get_windows()]", v["undertss"][f], lambda: vals(track[gi.get_location("start").get_windows(flank=f)]), flank=f)
     from bionumpy.genomic_data.genomic_intervals import GenomicLocation
     sloc = GenomicLocation.from_fields(g.get_genome_context(), [names[e["c"] - 1] for e in es], [e["s"] for e in es], [e["st"] for e in es])
     for f in (0, 1):
